@@ -189,6 +189,18 @@ fn typecheck_single_package(
     (tast, exports, hir_interface, diagnostics)
 }
 
+/// An interface that was built against the package now being compiled closes an import
+/// cycle: it can only be a stale file, and no order of rebuilding makes the pair linkable.
+fn reject_import_back(package: &str, dep: &InterfaceUnit) -> Result<(), CompilationError> {
+    if dep.deps.contains_key(package) {
+        return Err(compile_error(format!(
+            "package dependency cycle detected: {} -> {} -> {}",
+            package, dep.package, package
+        )));
+    }
+    Ok(())
+}
+
 pub fn check_package(opts: PackageInputs) -> Result<InterfaceUnit, CompilationError> {
     let (files, imports, _sources) = read_source_files(&opts.package, &opts.input_files)?;
 
@@ -208,6 +220,7 @@ pub fn check_package(opts: PackageInputs) -> Result<InterfaceUnit, CompilationEr
             )));
         }
         let unit = load_interface_from_paths(&dep, &opts.interface_paths)?;
+        reject_import_back(&opts.package, &unit)?;
         deps_envs.insert(dep.clone(), unit.exports.to_genv());
         deps_interfaces.insert(dep.clone(), unit.hir_interface.clone());
         dep_hashes.insert(dep, unit.interface_hash.clone());
@@ -245,6 +258,7 @@ pub fn build_package(opts: PackageInputs) -> Result<CoreUnit, CompilationError> 
             )));
         }
         let unit = load_interface_from_paths(&dep, &opts.interface_paths)?;
+        reject_import_back(&opts.package, &unit)?;
         deps_envs.insert(dep.clone(), unit.exports.to_genv());
         deps_interfaces.insert(dep.clone(), unit.hir_interface.clone());
         dep_hashes.insert(dep.clone(), unit.interface_hash.clone());
@@ -324,6 +338,10 @@ pub fn link_cores(cores: Vec<CoreUnit>) -> Result<LinkOutput, CompilationError> 
         ));
     }
 
+    // A cycle is named as such: the interface hash of each member covers the hashes of the
+    // others, so the comparison below can only answer "rebuild" for ever.
+    let order = topo_sort(&by_name)?;
+
     let mut pkg_names: Vec<&String> = by_name.keys().collect();
     pkg_names.sort();
     for pkg in pkg_names {
@@ -343,8 +361,6 @@ pub fn link_cores(cores: Vec<CoreUnit>) -> Result<LinkOutput, CompilationError> 
             }
         }
     }
-
-    let order = topo_sort(&by_name)?;
 
     let mut genv = GlobalTypeEnv::new();
     let mut diagnostics = Diagnostics::new();
